@@ -456,3 +456,9 @@ def run(ctx):
     ctx.borrow(c14.run, {'C14.R3': 'C01.R10', 'C14.R4': 'C01.R11'},
                'with an enhanced adapter every received symbol passes the frame decoder first; a symbol it drops, '
                'duplicates or reorders changes the telegram that is reported')
+    import rules.C11 as c11
+    ctx.borrow(c11.r1, {'C11.R1': 'C01.R13'},
+               'whether a received telegram is CRC-correct is decided with this table')
+    ctx.borrow(c11.r4, {'C11.R4': 'C01.R14'},
+               'source and destination of a received telegram are validated with the address class functions: a wider '
+               'isValidAddress/isMaster reports telegrams with an invalid source or destination')
